@@ -28,7 +28,8 @@ def make_world(spec, m):
     objs = []
     for o in spec["world"]:
         cls = getattr(m, o["cls"])
-        objs.append(cls(a=o["a"], b=o["b"], items=list(o["items"]), d=dict(o["d"]), name=o["name"]))
+        objs.append(cls(a=o["a"], b=o["b"], items=list(o["items"]), d=dict(o["d"]), name=o["name"],
+                        f=float(o.get("f", 0.0)), fs=frozenset(o.get("fs", ()))))
     for o, ob in zip(spec["world"], objs):
         ob.kids = [objs[i] for i in o["kids"]]
         ob.ref = objs[o["ref"]] if o["ref"] is not None else None
@@ -41,7 +42,8 @@ def gen_world(rng, n=None, small_values=True):
     for i in range(n):
         world.append({"cls": rng.choice(["P", "P", "Q"]), "a": rng.randint(0, 2), "b": rng.randint(0, 2),
                       "items": [rng.randint(0, 2) for _ in range(rng.choice([0, 1, 1, 2, 3]))],
-                      "kids": [], "ref": None, "d": {"k": rng.randint(0, 2)}, "name": f"o{i}"})
+                      "kids": [], "ref": None, "d": {"k": rng.randint(0, 2)}, "name": f"o{i}",
+                      "f": rng.choice(["0.0", "1.0", "2.5", "nan", "-1.0"]), "fs": sorted(rng.sample([0, 1, 2], rng.randint(0, 3)))})
     for i, o in enumerate(world):
         o["kids"] = [rng.randrange(n) for _ in range(rng.choice([0, 0, 1, 2, 2]))]
         o["ref"] = rng.randrange(n) if rng.random() < 0.7 else None
